@@ -29,6 +29,12 @@ def gen_cases(rng, tier, drift):
         out.append(dict(kind="proc", n=n_items, nw=rng.choice([1, 2, 3]), die_at=rng.randint(0, n_items - 1), in_order=rng.random() < 0.7,
                         mode=rng.choice(["in_udf", "in_udf", "idle"]), extra=rng.randint(1, 3),
                         how=rng.choice(["kill", "kill", "exit0", "sysexit", "exit3"])))
+    for i in range(3 if tier == "quick" and not drift else 30):
+        # the worker process stays alive: map_fn RAISES in it - a plain exception, one whose class needs two constructor arguments,
+        # one whose instance cannot be pickled; the failure must still reach the consumer (as some exception), never a hang
+        n_items = rng.randint(3, 9)
+        out.append(dict(kind="proc", n=n_items, nw=rng.choice([1, 2, 3]), die_at=rng.randint(0, n_items - 1), in_order=rng.random() < 0.7,
+                        mode="in_udf", extra=rng.randint(1, 3), how=["raise2", "raise_lock", "raise"][i % 3]))
     for i in range(nrt):
         n_items = rng.randint(2, 8)
         out.append(dict(kind="rt", node=rng.choice(["pf", "pm", "pm"]), n=n_items, src_err=rng.choice([None, rng.randint(0, n_items)]),
@@ -58,8 +64,23 @@ class KillAt:
                 os._exit(3)
             if self.how == "sysexit":
                 sys.exit()
+            if self.how == "raise":
+                raise ValueError(f"bad item {x}")
+            if self.how == "raise2":
+                raise TwoArgError("decode", x)              # an exception class whose constructor needs two arguments
+            if self.how == "raise_lock":
+                e = ValueError(f"bad item {x}")
+                import threading
+                e.handle = threading.Lock()                 # an exception instance that cannot be pickled
+                raise e
             os.kill(os.getpid(), signal.SIGKILL)
         return x + 100
+
+
+class TwoArgError(Exception):
+    def __init__(self, what, item):
+        super().__init__(f"{what} failed for item {item}")
+        self.what, self.item = what, item
 
 
 def timed_next(node, deadline):
@@ -110,7 +131,7 @@ def run_proc(c):
         if c["mode"] == "in_udf":
             want = [x + 100 for x in range(n) if x != c["die_at"]]
             if not any(o[0] == "err" for o in outs):
-                fails.append(f"a worker process was killed while mapping item {c['die_at']} but no next() raised: {outs}")
+                fails.append(f"a worker process {'raised' if str(c.get('how', '')).startswith('raise') else 'was killed'} while mapping item {c['die_at']} ({c.get('how')}) but no next() raised: {outs}")
             elif outs[first_bad][0] == "stop":
                 fails.append(f"clean StopIteration before the worker death was reported: {outs}")
             if c["in_order"] and items[:first_bad] != [x + 100 for x in range(first_bad)]:
